@@ -12,7 +12,9 @@ ROOT = os.path.dirname(os.path.dirname(os.path.abspath(__file__)))
 TARGET_MUT = None
 def sh(*a, **k):
     return subprocess.run(a, capture_output=True, text=True, **k)
+slot = 0
 def main():
+    global slot
     # a small pool of scratch target dirs (.cache/target-mut, -1, -2): each run takes a free slot
     # (or waits for slot 0); two runs never share a slot, so they cannot overwrite each other's
     # harness binaries
@@ -39,7 +41,12 @@ def main():
         i = args.index("--tier"); tier = args[i + 1]; del args[i:i + 2]
     patch, props = os.path.abspath(args[0]), args[1:]
     tag = re.sub(r"\W+", "_", os.path.relpath(patch, ROOT))[-40:]
-    wt = f"/tmp/mut-{tag}-{os.getpid()}"
+    # one fixed scratch path per slot: cargo then sees the same package every time (incremental
+    # rebuilds, no pile-up of artefacts for ever new paths)
+    wt = f"/tmp/mut-slot{slot}"
+    sh("git", "-C", "/repo", "worktree", "remove", "--force", wt)
+    shutil.rmtree(wt, ignore_errors=True)
+    sh("git", "-C", "/repo", "worktree", "prune")
     out = wt + "-out"
     hz = wt + "-harness"
     try:
